@@ -147,35 +147,89 @@ Definition stack_safe (e : pexpr) (S : list sitem) : Prop :=
 Definition top_not_ta (S : list sitem) : Prop :=
   match S with SOp q :: _ => is_ta q = false | _ => True end.
 
-Lemma run_cons t r S R :
-  run (t :: r) S R = match step t S R with Ok (S', R') => run r S' R' | Err e => Err e end.
+Lemma run_cons t r pe pp S R :
+  run (t :: r) pe pp S R =
+  if adjacency_error pe pp t then Err EBadExpr
+  else match step t S R with
+       | Ok (S', R') =>
+           if outer_closed t S' r then Err (ENoOpen BParen)
+           else run r (ends_operand t) (is_prefix_op t) S' R'
+       | Err e => Err e
+       end.
 Proof. reflexivity. Qed.
 
 Lemma leb_not_ltb p q : (p <=? q) = true -> (q <? p) = false.
 Proof. intro H. apply N.leb_le in H. apply N.ltb_ge. exact H. Qed.
 
+(* single steps *)
+Lemma run_leaf o r S R :
+  (o_nargs o =? 0) = true -> stops (o_prec o) S ->
+  run (TOp o :: r) false false S R = run r true false (SOp o :: S) R.
+Proof.
+  intros Hn Hs. rewrite run_cons. unfold adjacency_error.
+  cbn [orb andb starts_operand ends_operand is_prefix_op step outer_closed].
+  rewrite andb_false_r. rewrite prec_pop_stop by exact Hs.
+  apply N.eqb_eq in Hn. rewrite Hn. reflexivity.
+Qed.
+
+Lemma run_prefix f r S R :
+  (o_nargs f =? 1) = true -> stops (o_prec f) S ->
+  run (TOp f :: r) false false S R = run r false true (SOp f :: S) R.
+Proof.
+  intros Hn Hs. rewrite run_cons. unfold adjacency_error.
+  cbn [orb andb starts_operand ends_operand is_prefix_op step outer_closed].
+  rewrite andb_false_r. rewrite prec_pop_stop by exact Hs.
+  apply N.eqb_eq in Hn. rewrite Hn. reflexivity.
+Qed.
+
+Lemma run_infix o l r pe pp S R :
+  (o_nargs o =? 2) = true -> tighter o l = true -> stops (o_prec o) S ->
+  run (TOp o :: r) pe pp (List.map SOp l ++ S) R = run r false false (SOp o :: S) (R ++ l).
+Proof.
+  intros Hn Ht Hs. rewrite run_cons. unfold adjacency_error.
+  cbn [starts_operand ends_operand is_prefix_op step outer_closed].
+  apply N.eqb_eq in Hn. rewrite Hn. cbn [N.ltb N.compare Pos.compare Pos.compare_cont andb N.eqb].
+  rewrite (prec_pop_all (o_prec o) l S R Ht Hs). reflexivity.
+Qed.
+
+Lemma run_open b r S R :
+  run (TOpen b :: r) false false S R = run r false false (SOpen b :: S) R.
+Proof. reflexivity. Qed.
+
+Lemma run_open_after_prefix r S R :
+  run (TOpen BParen :: r) false true S R = run r false false (SOpen BParen :: S) R.
+Proof. reflexivity. Qed.
+
+Lemma run_close_paren l opt r pe pp s S R :
+  run (TClose BParen opt :: r) pe pp (List.map SOp l ++ SOpen BParen :: s :: S) R =
+  run r true false (s :: S) (R ++ l).
+Proof.
+  rewrite run_cons. unfold adjacency_error. cbn [starts_operand andb step].
+  rewrite close_pop_all. reflexivity.
+Qed.
+
 (* The main invariant: after the tokens of e, the operators of its right
    spine are on the stack, everything else has been emitted. *)
 Lemma run_render e : okp e -> forall S R rest,
-  stack_safe e S -> top_not_ta S ->
-  run (render e ++ rest) S R = run rest (List.map SOp (pending e) ++ S) (R ++ emitted e).
+  S <> [] -> stack_safe e S -> top_not_ta S ->
+  run (render e ++ rest) false false S R =
+  run rest true false (List.map SOp (pending e) ++ S) (R ++ emitted e).
 Proof.
   unfold okp.
   induction e as [o|f x IHx|o a IHa b IHb|a IHa|a IHa opt|a IHa|ta a IHa i IHi opt];
-    intros Hok S R rest Hsafe Hta; cbn [okpb] in Hok.
+    intros Hok S R rest Hne Hsafe Hta; cbn [okpb] in Hok.
   - (* leaf *)
-    cbn [render app pending emitted List.map]. rewrite run_cons. cbn [step].
-    rewrite prec_pop_stop.
-    + rewrite app_nil_r. reflexivity.
-    + destruct S as [|[q|b] S]; cbn [stops]; try exact I.
-      cbn [stack_safe lowok] in Hsafe. apply leb_not_ltb. exact Hsafe.
+    cbn [render app pending emitted List.map]. unfold leaf_arity in Hok.
+    rewrite run_leaf; [rewrite app_nil_r; reflexivity | exact Hok |].
+    destruct S as [|[q|b] S]; cbn [stops]; try exact I.
+    cbn [stack_safe lowok] in Hsafe. apply leb_not_ltb. exact Hsafe.
   - (* f ( x ) *)
     apply andb_true_iff in Hok as [Hn Hx].
-    cbn [render app pending emitted List.map]. rewrite run_cons. cbn [step].
-    rewrite prec_pop_stop.
-    + rewrite run_cons. cbn [step]. rewrite <- app_assoc.
-      rewrite (IHx Hx); [|exact I|exact I].
-      cbn [app]. rewrite run_cons. cbn [step]. rewrite close_pop_all.
+    cbn [render app pending emitted List.map].
+    rewrite run_prefix; [|exact Hn|].
+    + rewrite run_open_after_prefix. rewrite <- app_assoc.
+      rewrite (IHx Hx); [|discriminate|exact I|exact I].
+      cbn [app]. rewrite run_close_paren.
       rewrite <- app_assoc. rewrite emitted_pending. reflexivity.
     + destruct S as [|[q|b] S]; cbn [stops]; try exact I.
       cbn [stack_safe lowok] in Hsafe. apply leb_not_ltb. exact Hsafe.
@@ -184,36 +238,38 @@ Proof.
     apply andb_true_iff in Hok as [Hok Hb]. apply andb_true_iff in Hok as [Hok Ha].
     apply andb_true_iff in Hok as [Hok Hnta].
     cbn [render]. rewrite <- app_assoc. cbn [app].
-    assert (HsafeA : stack_safe a S /\ stops (o_prec o) S /\ stack_safe b S).
-    { destruct S as [|[q|br] S]; cbn [stack_safe stops]; try (repeat split; exact I).
+    assert (HsafeA : stack_safe a S /\ stops (o_prec o) S).
+    { destruct S as [|[q|br] S]; cbn [stack_safe stops]; try (split; exact I).
       cbn [stack_safe lowok] in Hsafe. apply andb_true_iff in Hsafe as [Hs1 Hs3].
-      apply andb_true_iff in Hs1 as [Hs1 Hs2]. repeat split; try assumption.
+      apply andb_true_iff in Hs1 as [Hs1 Hs2]. split; [assumption|].
       apply leb_not_ltb. exact Hs2. }
-    destruct HsafeA as (HsA & Hstop & _).
-    rewrite (IHa Ha); [|exact HsA|exact Hta].
-    rewrite run_cons. cbn [step].
-    rewrite (prec_pop_all (o_prec o) (pending a) S (R ++ emitted a) Htight Hstop).
-    rewrite <- app_assoc. rewrite emitted_pending.
+    destruct HsafeA as (HsA & Hstop).
+    rewrite (IHa Ha); [|exact Hne|exact HsA|exact Hta].
+    rewrite (run_infix o (pending a) _ true false S (R ++ emitted a) Hok Htight Hstop).
+    rewrite <- (app_assoc R (emitted a) (pending a)). rewrite emitted_pending.
     rewrite (IHb Hb).
     + cbn [pending emitted]. rewrite List.map_app. cbn [List.map]. rewrite <- !app_assoc. reflexivity.
+    + discriminate.
     + cbn [stack_safe]. exact Hlow.
     + cbn [top_not_ta]. apply negb_true_iff. exact Hnta.
   - (* ( a ) *)
-    cbn [render app pending emitted List.map]. rewrite run_cons. cbn [step].
-    rewrite <- app_assoc. rewrite (IHa Hok); [|exact I|exact I].
-    cbn [app]. rewrite run_cons. cbn [step]. rewrite close_pop_all.
+    cbn [render app pending emitted List.map]. rewrite run_open.
+    rewrite <- app_assoc. rewrite (IHa Hok); [|discriminate|exact I|exact I].
+    cbn [app]. destruct S as [|s S]; [congruence|]. rewrite run_close_paren.
     rewrite <- app_assoc. rewrite emitted_pending. reflexivity.
   - (* [ a ] *)
-    cbn [render app pending emitted List.map]. rewrite run_cons. cbn [step].
-    rewrite <- app_assoc. rewrite (IHa Hok); [|exact I|exact I].
-    cbn [app]. rewrite run_cons. cbn [step]. rewrite close_pop_all.
+    cbn [render app pending emitted List.map]. rewrite run_open.
+    rewrite <- app_assoc. rewrite (IHa Hok); [|discriminate|exact I|exact I].
+    cbn [app]. rewrite run_cons. unfold adjacency_error. cbn [starts_operand andb step].
+    rewrite close_pop_all.
     rewrite <- !app_assoc. rewrite (app_assoc (emitted a)). rewrite emitted_pending.
     destruct S as [|[q|br] S]; try reflexivity.
     cbn [top_not_ta] in Hta. rewrite Hta. reflexivity.
   - (* { a } *)
-    cbn [render app pending emitted List.map]. rewrite run_cons. cbn [step].
-    rewrite <- app_assoc. rewrite (IHa Hok); [|exact I|exact I].
-    cbn [app]. rewrite run_cons. cbn [step]. rewrite close_pop_all.
+    cbn [render app pending emitted List.map]. rewrite run_open.
+    rewrite <- app_assoc. rewrite (IHa Hok); [|discriminate|exact I|exact I].
+    cbn [app]. rewrite run_cons. unfold adjacency_error. cbn [starts_operand andb step].
+    rewrite close_pop_all.
     rewrite <- !app_assoc. rewrite (app_assoc (emitted a)). rewrite emitted_pending.
     destruct S as [|[q|br] S]; try reflexivity.
     cbn [top_not_ta] in Hta. rewrite Hta. reflexivity.
@@ -226,14 +282,14 @@ Proof.
       cbn [stack_safe lowok] in Hsafe. apply andb_true_iff in Hsafe as [Hs1 Hs2].
       split; [assumption|]. apply leb_not_ltb. exact Hs2. }
     destruct HsafeA as (HsA & Hstop).
-    rewrite (IHa Ha); [|exact HsA|exact Hta].
-    rewrite run_cons. cbn [step].
-    rewrite (prec_pop_all (o_prec ta) (pending a) S (R ++ emitted a) Htight Hstop).
+    rewrite (IHa Ha); [|exact Hne|exact HsA|exact Hta].
+    rewrite (run_infix ta (pending a) _ true false S (R ++ emitted a) Hok Htight Hstop).
     rewrite <- (app_assoc R (emitted a) (pending a)). rewrite emitted_pending.
-    rewrite run_cons. cbn [step]. rewrite <- (app_assoc (render i)).
-    rewrite (IHi Hi); [|exact I|exact I].
-    cbn [app]. rewrite run_cons. cbn [step]. rewrite close_pop_all.
-    rewrite Hista. cbn [pending emitted List.map app].
+    rewrite run_open. rewrite <- (app_assoc (render i)).
+    rewrite (IHi Hi); [|discriminate|exact I|exact I].
+    cbn [app]. rewrite run_cons. unfold adjacency_error. cbn [starts_operand andb step].
+    rewrite close_pop_all.
+    rewrite Hista. cbn [pending emitted List.map app outer_closed ends_operand is_prefix_op].
     rewrite <- (app_assoc _ (emitted i) (pending i)). rewrite emitted_pending.
     rewrite <- ?app_assoc. cbn [app]. reflexivity.
 Qed.
@@ -246,8 +302,7 @@ Proof.
   unfold okp.
   induction e as [o|f x IHx|o a IHa b IHb|a IHa|a IHa opt|a IHa|ta a IHa i IHi opt];
     intro Hok; cbn [okpb] in Hok; cbn [tree_of wf_tree].
-  - unfold leaf_arity in Hok. apply andb_true_iff in Hok as [H1 H2].
-    apply negb_true_iff in H1, H2. rewrite H1, H2. repeat split.
+  - unfold leaf_arity in Hok. apply N.eqb_eq in Hok. rewrite Hok. cbn [N.eqb]. repeat split.
   - apply andb_true_iff in Hok as [Hn Hx]. rewrite Hn.
     repeat split; [discriminate | apply IHx; exact Hx].
   - apply andb_true_iff in Hok as [Hok Hlow]. apply andb_true_iff in Hok as [Hok Htight].
@@ -270,9 +325,9 @@ Qed.
 Lemma convert_render e : okp e -> convert_to_postfix (render e) = Ok (postfix_of (tree_of e)).
 Proof.
   intro Hok. unfold convert_to_postfix.
-  rewrite (run_render e Hok [SOpen BParen] [] [TClose BParen false] I I).
-  rewrite run_cons. cbn [step]. rewrite close_pop_all. cbn [run app].
-  rewrite emitted_pending. reflexivity.
+  rewrite (run_render e Hok [SOpen BParen] [] [TClose BParen false]); [|discriminate|exact I|exact I].
+  rewrite run_cons. unfold adjacency_error. cbn [starts_operand andb step]. rewrite close_pop_all.
+  cbn [outer_closed run app]. rewrite emitted_pending. reflexivity.
 Qed.
 
 Lemma parse_render e : okp e -> parse (render e) = Ok (Some (tree_of e)).
